@@ -573,7 +573,7 @@ def parse_spawn(st):
 
 
 def parse_ctor(m, stmts):
-    out = {"user_call": None, "debut_call": None, "phantoms": [], "chan": None, "chan_binds": None, "spawns": [], "wrap": "", "fields": None, "extra": [], "wrapped": None, "members": []}
+    out = {"user_call": None, "debut_call": None, "phantoms": [], "chan": None, "chan_binds": None, "spawns": [], "wrap": "", "fields": None, "extra": [], "wrapped": None, "members": [], "order": []}
     last = stmts[-1]
     e = match(last, "Self { $f:rest }")
     if e is None:
@@ -601,27 +601,33 @@ def parse_ctor(m, stmts):
             segs = [x.s for x in strip_turbofish(e["p"]) if x.k == "id"]
             if segs[-1] == "debut" and not q and not e["args"]:
                 out["debut_call"] = (e["a"].s, "::".join(segs))
+                out["order"].append("debut")
                 continue
             if out["user_call"] is None and out["chan"] is None:
                 out["user_call"] = {"bind": e["a"].s, "path": "::".join(segs[:-1]), "method": segs[-1], "args": args_srcs(e["args"]), "try": q}
+                out["order"].append("user")
                 continue
         e = match(st, "let $a:ident = :: std :: marker :: PhantomData ;")
         if e is not None:
             out["phantoms"].append(e["a"].s)
+            out["order"].append("phantom")
             continue
         e = match(st, "let ( $tx:ident , $rx:ident ) = $p:path ( $args:rest ) ;")
         if e is not None and out["chan"] is None:
             segs = [x.s for x in e["p"] if x.k == "id"]
             out["chan"] = parse_chan_ctor(segs, split_top(e["args"], angle=False))
             out["chan_binds"] = (e["tx"].s, e["rx"].s)
+            out["order"].append("chan")
             continue
         sp = parse_spawn(st)
         if sp is not None:
             out["spawns"].append(sp)
+            out["order"].append("spawn")
             continue
         e = match(st, "let $a:ident = :: std :: sync :: Arc :: new ( $lk:path ( $inner:ident ) ) ;")
         if e is not None and out["wrapped"] is None:
             out["wrapped"] = {"bind": e["a"].s, "lock": "::".join(x.s for x in e["lk"] if x.k == "id"), "inner": e["inner"].s}
+            out["order"].append("wrap")
             continue
         e = match(st, "let $a:ident = $p:path ( $args:rest ) ;")
         if e is not None:
@@ -636,8 +642,10 @@ def parse_ctor(m, stmts):
                 margs.append(ce["x"].s)
             if okm and len(segs) == 2 and segs[1] == "new":
                 out["members"].append({"bind": e["a"].s, "live": segs[0], "args": margs})
+                out["order"].append("member")
                 continue
-        out["extra"].append(render(st))
+        if render(st).strip() != ";":
+            out["extra"].append(render(st))
     return ("BCtor", out)
 
 
